@@ -29,3 +29,8 @@ Fixpoint upd (h : bytes) (p : nat) (v : byte) : bytes :=
   | _ :: t, O => v :: t
   | c :: t, S p' => c :: upd t p' v
   end.
+
+(* the root formats that take precedence over tar: tar sits right after exe, elf and ar *)
+Definition before_tar_spec : list string :=
+  ["xpm"; "sevenZ"; "zip"; "pdf"; "fdf"; "ole"; "ps"; "psd"; "p7s"; "ogg"; "png"; "jpg"; "jxl"; "jp2"; "jpx"; "jpm"; "jxs";
+   "gif"; "webp"; "exe"; "elf"; "ar"]%string.
